@@ -9,16 +9,18 @@ HHDR = '/repo/src/common/http_header.cc'
 OFFSETS = ['harness/offsets_http.cc']
 _P, _PK = '_ZN8Pistache4Http6Header', '_ZNK8Pistache4Http6Header'
 UNITS['hdr'] = dict(src=HHDR, mode='sel', roots=[_P + '10Connection8parseRawEPKcm', _PK + '10Connection5writeERSo', _P + '14EncodingHeader8parseRawEPKcm', _PK + '14EncodingHeader5writeERSo',
-    _P + '6Expect8parseRawEPKcm', _PK + '6Expect5writeERSo', _P + '13ContentLength5parseERKNSt7__cxx1112basic_stringIcSt11char_traitsIcESaIcEEE', _PK + '13ContentLength5writeERSo'])
+    _P + '6Expect8parseRawEPKcm', _PK + '6Expect5writeERSo', _P + '13ContentLength5parseERKNSt7__cxx1112basic_stringIcSt11char_traitsIcESaIcEEE', _PK + '13ContentLength5writeERSo', _P + '12CacheControl8parseRawEPKcm', _PK + '12CacheControl5writeERSo'])
 _MS = '_ZN8Pistache12match_stringEPKcmRNS_12StreamCursorENS_15CaseSensitivityE'
-def _typed(name, defs, bound, witness=True):
-    return dict(name=name, units=['hdr'], file='c16_typed.c', defs=defs, unwind=24, unwindset={_MS + '.0': 25, 'gos_put.0': 25}, hunwind=34, witness=witness, bound=bound,
-                desc='(c) typed header: write -> parse(written text) yields an equal header; writing it again yields identical text')
+def _typed(name, defs, bound, witness=True, **kw):
+    return dict(dict(name=name, units=['hdr'], file='c16_typed.c', defs=defs, unwind=24, unwindset={_MS + '.0': 25, 'gos_put.0': 25}, hunwind=34, witness=witness, bound=bound,
+                desc='(c) typed header: write -> parse(written text) yields an equal header; writing it again yields identical text'), **kw)
 HARNESSES = [
   _typed('typed_connection', {'H_CONN': None}, 'Connection: every control value (Close, Keep-Alive, Ext)'),
   _typed('typed_encoding', {'H_ENC': None}, 'Content-Encoding / Transfer-Encoding: every encoding (gzip, compress, deflate, identity, chunked, unknown)'),
   _typed('typed_expect', {'H_EXPECT': None}, 'Expect: 100-continue and other', witness=False),
   _typed('typed_content_length', {'H_CLEN': None, 'NDIG': 4}, 'Content-Length: every value of 1..4 digits'),
+] + [_typed('typed_cache_control_d%d' % d_, {'H_CACHE': None, 'DIRFIX': d_, 'CCDIG': 2}, 'Cache-Control with one directive of kind #%d, every delta-seconds of 1..2 digits (thorough 3), 0 included' % d_, witness=(d_ == 0), unwind=10, outer_unwind=12, timeout=1500, thorough=dict(defs={'H_CACHE': None, 'DIRFIX': d_, 'CCDIG': 3}),
+           tiers=('quick', 'thorough') if d_ in (0, 2, 9) else ('thorough',), unwindset={'_ZN8Pistache9match_rawEPKvmRNS_12StreamCursorE.0': 18, 'gos_put.0': 25}) for d_ in range(12)] + [
   _typed('typed_content_length_max', {'H_CLEN': None, 'CL_MAX': None}, 'Content-Length: 2^64-1', witness=False),
   dict(name='case_fold_l1', units=['case'], file='c16_case.c', defs={'L': 1}, unwind=6, bound='all pairs of strings of length <= 1 over all 256 byte values (every single byte against every single byte)',
        desc='(a) as case_fold, the single-character base case: exactly the 26 ASCII letter pairs are identified'),
